@@ -9,6 +9,7 @@ import HappyProofs.C11.Safety
 import HappyProofs.C11.LeaderInit
 import HappyProofs.C11.ProgJudgeOk
 import HappyProofs.C11.ProgConvFair
+import HappyProofs.C11.ProgFifoRun
 /-! C11 — property theorems: statements about the `Spec` predicates on the frames of model runs.
 
 General theorems live next to their invariants (quantified over the repair flags they need):
@@ -287,6 +288,13 @@ theorem conv_exists_example :
     ∧ convRun Variant.repaired 1 2 2 2 (run Variant.repaired (init 3) (backoffPre ++ [.submit 1 9 cmdB, .heartbeat 1]))
         [.deliver 14, .deliver 15, .deliver 16, .deliver 17] = true
     ∧ ((run Variant.repaired (init 3) (backoffPre ++ [.submit 1 9 cmdB, .heartbeat 1])).nodes 1).nextIndex.getD 2 1 = 2 := by decide
+
+/-- non-vacuity of `stable_leader_commits_fifo`: the noisy stable run delivers in send order on every link
+    (the re-delivered old acknowledgement 5 comes before the newer acknowledgement 9 on the link 1 → 0) -/
+theorem fifo_example :
+    fifoRun Variant.repaired [] (run Variant.repaired (init 3) stablePre) (.submit 0 7 cmdA :: stableTail) = true
+    ∧ fifoRun Variant.repaired [] (run Variant.repaired (init 3) stablePre)
+        [.submit 0 7 cmdA, .heartbeat 0, .deliver 7, .deliver 9, .deliver 5] = false := by decide
 
 /-! ### the judge's bounded-progress clause on the model's own transcript -/
 
